@@ -12,7 +12,8 @@ _CMP = {'==': operator.eq, '!=': operator.ne, '<': operator.lt, '<=': operator.l
         '>=': operator.ge, 'is': operator.is_, 'is not': operator.is_not,
         'in': lambda a, b: a in b, 'not in': lambda a, b: a not in b}
 _BIN = {'+': operator.add, '-': operator.sub, '*': operator.mul, '//': operator.floordiv, '%': operator.mod,
-        '**': operator.pow, '/': operator.truediv}
+        '**': operator.pow, '/': operator.truediv, '<<': operator.lshift, '>>': operator.rshift,
+        '&': operator.and_, '|': operator.or_, '^': operator.xor}
 
 
 def feval(t, atom):
